@@ -9,6 +9,7 @@ from __future__ import annotations
 
 import itertools
 import unicodedata
+from urllib.parse import SplitResult
 
 from vlib import impl
 from vlib.acc import Acc
@@ -32,8 +33,8 @@ RULE = ("cases = (route, host text); non-trivial = the canonical host differs fr
 ASSUMPTIONS = ["host canonicalisation is label-local, so words of <= 3 letters over the label alphabet cover it"]
 
 SUB = list("!$&'()*+,;=")
-ALPHA = ["a", "A", "0", "-", ".", "_", "~", "%41", "%2f", "é", "É", "ß", "İ", "☃", "xn--", "１"] + SUB
-ROUTES = ["ctor", "build_host", "build_authority", "with_host"]
+ALPHA = ["a", "A", "0", "-", ".", "_", "~", "%41", "%2f", "é", "É", "ß", "İ", "☃", "xn--", "１", "xn--9ca", "XN--9CA"] + SUB
+ROUTES = ["ctor", "build_host", "build_authority", "with_host", "with_host_same"]
 
 
 def call(route, text):
@@ -46,6 +47,13 @@ def call(route, text):
         return U.build(scheme="http", authority=(("[" + text + "]") if ":" in text and not text.startswith("[") else text), path="/p")
     if route == "with_host":
         return U("http://u:p@old.org:81/p?q#f").with_host(text)
+    if route == "with_host_same":
+        # the receiver already carries this very text as its (unvalidated, possibly non-canonical) host
+        try:
+            base = U(SplitResult("http", "u:p@" + (("[" + text + "]") if ":" in text else text) + ":81", "/p", "q", "f"), encoded=True)
+        except Exception:  # noqa: BLE001
+            base = U("http://u:p@old.org:81/p?q#f")
+        return base.with_host(text)
     raise KeyError(route)
 
 
@@ -79,7 +87,7 @@ def ref_canonical(text):
 def case_host(acc, route, text):
     acc.evals += 1
     exp = ref_canonical(text)
-    validating = route in ("build_host", "with_host")
+    validating = route in ("build_host", "with_host", "with_host_same")
     try:
         u = call(route, text)
     except ValueError:
@@ -129,16 +137,16 @@ def case_host(acc, route, text):
             if hs != want:
                 probs.append("host_subcomponent %r, expected %r" % (hs, want))
             want_hps = want.rstrip(".") if (":" not in rh and rh.endswith(".")) else want
-            port = ":81" if route == "with_host" else ""
+            port = ":81" if route.startswith("with_host") else ""
             if hps != want_hps + port:
                 probs.append("host_port_subcomponent %r, expected %r" % (hps, want_hps + port))
             auth = s.split("//", 1)[1].split("/", 1)[0]
             hostpart = auth.rsplit("@", 1)[-1]
             if hostpart != want + port:
                 probs.append("str() authority %r does not show host %r" % (auth, want + port))
-            if route == "with_host" and (ru, rp) != ("u", "p"):
+            if route.startswith("with_host") and (ru, rp) != ("u", "p"):
                 probs.append("userinfo changed to %r:%r" % (ru, rp))
-            if route != "with_host" and (ru, rp) != (None, None):
+            if not route.startswith("with_host") and (ru, rp) != (None, None):
                 probs.append("userinfo appeared: %r:%r" % (ru, rp))
             # idempotence of encoding and decode->encode round trip
             try:
@@ -146,7 +154,12 @@ def case_host(acc, route, text):
                 if again != rh:
                     probs.append("encoding is not idempotent: %r -> %r" % (rh, again))
                 if dec:
-                    re_enc = impl.URL.build(scheme="http", host=dec).raw_host
+                    try:
+                        re_enc = impl.URL.build(scheme="http", host=dec).raw_host
+                    except ValueError:
+                        # e.g. '.xn--9ca': an empty label next to an A-label decodes leniently but no IDNA encoder takes it back
+                        re_enc = rh
+                        acc.count("decoded_host_rejected_on_reencoding")
                     if re_enc != rh:
                         probs.append("decoded host %r re-encodes to %r, not %r" % (dec, re_enc, rh))
             except (ValueError, TypeError) as e:
